@@ -806,6 +806,19 @@ func (vf *VerifyFunc) enterBlock(st *State, fr *Frame, b *ssa.BasicBlock) bool {
 	for _, phi := range phis {
 		nv := st.freshVal(phi.Type(), "loop_"+phi.Comment)
 		fr.regs[phi] = nv
+		if isRangeIndexPhi(phi) {
+			// index of a range loop over a slice / array / string: starts at -1, steps by one, is compared with the length
+			// before every use: it never goes below -1 (implicit invariant of the lowering)
+			st.assume("(>= " + nv.Tm + " (- 1))")
+			if lv := rangeLenOf(phi); lv != nil {
+				if l, ok := fr.regs[lv]; ok && l.S == SInt {
+					// every index the loop has reached passed the test `index < len`; -1 is below any length
+					st.assume("(< " + nv.Tm + " " + l.Tm + ")")
+				} else if c, ok := lv.(*ssa.Const); ok && c.Value != nil {
+					st.assume("(< " + nv.Tm + " " + c.Value.ExactString() + ")")
+				}
+			}
+		}
 		if phi.Comment != "" {
 			fr.vars[phi.Comment] = nv
 			fr.vars[fmt.Sprintf("%s%d", phi.Comment, ord)] = nv
@@ -820,6 +833,45 @@ func (vf *VerifyFunc) enterBlock(st *State, fr *Frame, b *ssa.BasicBlock) bool {
 	}
 	st.trail = append(st.trail, fmt.Sprintf("loop%d", ord))
 	return true
+}
+
+// isRangeIndexPhi recognises go/ssa's lowering of `for i := range s`: rangeindex = phi [-1, rangeindex + 1].
+func isRangeIndexPhi(phi *ssa.Phi) bool {
+	if phi.Comment != "rangeindex" || len(phi.Edges) != 2 {
+		return false
+	}
+	init, step := false, false
+	for _, e := range phi.Edges {
+		switch x := e.(type) {
+		case *ssa.Const:
+			if x.Value != nil && x.Value.ExactString() == "-1" {
+				init = true
+			}
+		case *ssa.BinOp:
+			if x.Op == token.ADD && x.X == ssa.Value(phi) {
+				if c, ok := x.Y.(*ssa.Const); ok && c.Value != nil && c.Value.ExactString() == "1" {
+					step = true
+				}
+			}
+		}
+	}
+	return init && step
+}
+
+// rangeLenOf: the length value the incremented range index is compared with (`rangeindex + 1 < len`).
+func rangeLenOf(phi *ssa.Phi) ssa.Value {
+	for _, e := range phi.Edges {
+		inc, ok := e.(*ssa.BinOp)
+		if !ok || inc.Op != token.ADD || inc.X != ssa.Value(phi) {
+			continue
+		}
+		for _, r := range *inc.Referrers() {
+			if cmp, ok := r.(*ssa.BinOp); ok && cmp.Op == token.LSS && cmp.X == ssa.Value(inc) {
+				return cmp.Y
+			}
+		}
+	}
+	return nil
 }
 
 func lbl(c *Clause, def string) string {
